@@ -544,7 +544,7 @@ func startPending(sess *xmpp.Session, pend []PendSpec) *pendWorld {
 		}
 		issue(i)
 		n++
-		if !pw.g.WaitArrived(pointWaiting, n, 10*time.Second) {
+		if !pw.waitFor(func() bool { return pw.g.Arrived(pointWaiting) >= n }) {
 			pw.err = "outstanding call did not reach its wait"
 			return pw
 		}
@@ -557,13 +557,34 @@ func startPending(sess *xmpp.Session, pend []PendSpec) *pendWorld {
 		}
 		issue(i)
 		parked++
-		if !pw.g.WaitParked(pointWaiting, parked, 10*time.Second) {
+		if !pw.waitFor(func() bool { return pw.g.Parked(pointWaiting) >= parked }) {
 			pw.err = "outstanding call did not reach its wait"
 			return pw
 		}
 		pw.cancels[len(pw.cancels)-1]()
 	}
 	return pw
+}
+
+// waitFor polls cond until it holds; it gives up at once when the call issued
+// last has returned instead of waiting (it was refused), and after 10 s.
+func (pw *pendWorld) waitFor(cond func() bool) bool {
+	last := pw.dones[len(pw.dones)-1]
+	deadline := time.Now().Add(10 * time.Second)
+	for {
+		if cond() {
+			return true
+		}
+		select {
+		case <-last:
+			return cond()
+		default:
+		}
+		if time.Now().After(deadline) {
+			return false
+		}
+		time.Sleep(100 * time.Microsecond)
+	}
 }
 
 // finish is called when Serve has returned: what was offered to whom is read
